@@ -6,15 +6,55 @@ CLAIM = ('V1 transport only: a real sender V1Transport (net.cpp SetMessageToSend
          'and fed the stream in two fragments at every cut point, yields exactly one message with the same type and payload (rejected iff the type is not printable ASCII). With one wire byte altered: '
          'magic -> transport error; checksum or payload -> rejected, never delivered; length -> transport error / nothing delivered / delivered only if the truncated payload matches the checksum on the wire; '
          'type byte -> framing and payload unchanged (v1 does not authenticate the type). The checksum is a recording deterministic hash model, so "matches its checksum" is exact. V2/BIP324 is not decided.')
-def e(tlen, plen, lo, hi, tamper=-1, newlen=-1):
+def e(tlen, plen, lo, hi, tamper=-1, newlen=-1, msym=0, xmask=0):
     nm = 't%d_p%d_c%d_%d' % (tlen, plen, lo, hi) + ('' if tamper < 0 else '_x%d' % tamper) + ('' if newlen < 0 else '_l%d' % newlen)
-    return (nm, '%d, %d, %d, %d, %d, %dL' % (tlen, plen, lo, hi, tamper, newlen))
-quick = [e(2, 4, 0, 0), e(2, 4, 1, 3)]
+    return (nm + ('_ms' if msym else '') + ('_m%02x' % xmask if xmask else ''), '%d, %d, %d, %d, %d, %dL, %d, %d' % (tlen, plen, lo, hi, tamper, newlen, msym, xmask))
+TY = dict(empty=0, tx=1, verack=2, filterclear=3, abcdefghijkl=4, bad7f=5, space=6, hi01=7)
+quick = []
+# sender only, symbolic network magic: wire format
+for t, p in [('empty', 0), ('verack', 4), ('abcdefghijkl', 3)]: quick.append(e(TY[t], p, 1, 0, msym=1))
+# untampered: every cut point
+for lo, hi in [(0, 7), (8, 15), (16, 22), (23, 28)]: quick.append(e(TY['verack'], 4, lo, hi))
+for lo, hi in [(0, 12), (13, 24)]: quick.append(e(TY['tx'], 0, lo, hi))
+quick += [e(TY['filterclear'], 1, 20, 25), e(TY['abcdefghijkl'], 2, 14, 18), e(TY['abcdefghijkl'], 3, 23, 27), e(TY['empty'], 2, 0, 5), e(TY['space'], 4, 9, 12)]
+quick += [e(TY['bad7f'], 4, 0, 2), e(TY['hi01'], 1, 24, 25)]
+# one altered byte: magic, checksum, payload (symbolic non-zero xor mask), length (concrete new value), type byte
+for x, m in ((0, 0x01), (3, 0x80), (1, 0xff)): quick.append(e(TY['verack'], 4, 0, 5, tamper=x, xmask=m))
+for x in (20, 23): quick.append(e(TY['verack'], 4, 21, 24, tamper=x))
+for x in (24, 27): quick.append(e(TY['verack'], 4, 24, 27, tamper=x))
+for nl in (0, 3, 5, 255): quick.append(e(TY['verack'], 4, 16, 17, tamper=16, newlen=nl))
+quick += [e(TY['verack'], 4, 0, 0, tamper=17, newlen=4 + 256), e(TY['verack'], 4, 18, 20, tamper=19, newlen=4 + (1 << 24)), e(TY['tx'], 0, 0, 0, tamper=16, newlen=1), e(TY['tx'], 0, 17, 17, tamper=19, newlen=255 << 24)]
+for x, m in ((4, 0x01), (4, 0x76), (6, 0x80), (11, 0), (15, 0)): quick.append(e(TY['verack'], 4, 0, 0, tamper=x, xmask=m))
+# quick keeps ~30 queries (budget); the rest of the first list runs in the thorough tier
+DEFER = {'t1_p0_c0_12', 't2_p4_c16_17_x16_l0', 't2_p4_c16_17_x16_l5', 't2_p4_c0_5_x1_mff', 't2_p4_c21_24_x20', 't2_p4_c24_27_x24', 't2_p4_c0_0_x15'}
 thorough = list(quick)
-LINK = ['net.cpp', 'protocol.cpp']
+quick = [x for x in quick if x[0] not in DEFER]
+for t, p in [('verack', 4), ('abcdefghijkl', 4), ('filterclear', 3), ('tx', 2), ('tx', 1), ('empty', 0)]:
+    for lo in range(0, 24 + p + 1, 6): thorough.append(e(TY[t], p, lo, min(lo + 5, 24 + p)))
+for x in list(range(20, 28)) + list(range(10, 16)): thorough.append(e(TY['verack'], 4, 0, 3, tamper=x))
+for x in range(4, 10):
+    for m in (0x01, 0x80, ord('verack'[x - 4])): thorough.append(e(TY['verack'], 4, 0, 3, tamper=x, xmask=m))
+for x in range(0, 4):
+    for m in (0x01, 0x10, 0x80, 0xff): thorough.append(e(TY['verack'], 4, 0, 5, tamper=x, xmask=m))
+for nl in (1, 2, 6, 7, 8, 100): thorough.append(e(TY['verack'], 4, 16, 17, tamper=16, newlen=nl))
+def uniq(l):
+    seen = set(); out = []
+    for x in l:
+        if x[0] not in seen: seen.add(x[0]); out.append(x)
+    return out
+quick = uniq(quick); thorough = uniq(thorough)
+FILL = '_ZNSt6vectorISt4byte25zero_after_free_allocatorIS0_EE14_M_fill_insertEN9__gnu_cxx17__normal_iteratorIPS0_S3_EEmRKS0_'
+LINK = ['net.cpp']
 HARNESSES = [
-    H('v1xfer', 'v1xfer.cpp', 'h_v1', link=LINK, entries=quick, tentries=thorough, shadow=['nofmt'], unwind=34, memunwind=112, timeout=600, objbits=11,
+    H('v1xfer', 'v1xfer.cpp', 'h_v1', link=LINK, entries=quick, tentries=thorough, defines={'VERIF_MEMCPY_TYPED': 1}, opt='-O2', shadow=['nofmt'], unwind=34, unwindset=','.join('%s.%d:264' % (FILL, k) for k in range(0, 5)), memunwind=300, timeout=600, objbits=11,
       functions=['V1Transport::SetMessageToSend/GetBytesToSend/MarkBytesSent/ReceivedBytes/readHeader/readData/GetMessageHash/GetReceivedMessage/ReceivedMessageComplete/Reset (net.cpp, net.h)',
                  'CMessageHeader ctor/(de)serialization/GetMessageType/IsMessageTypeValid (protocol.cpp, protocol.h)', 'DataStream, VectorWriter (streams.h)', 'CHash256/Hash (hash.h)'],
-      stubs=[], bounds=''),
+      stubs=['CSHA256 -> recording deterministic model (digest = input xor length-dependent pad; independent of Write() fragmentation; injective on equal-length inputs <= 32 bytes)',
+             'Params() -> phantom CChainParams holding the harness magic; after asserting that V1Transport copied it, the same bytes are stored back as constants (assert-then-pin)',
+             'protocol.cpp compiled inside the harness TU without optimisation (clang -O1 rewrites the IsMessageTypeValid loop bound with integer address arithmetic)', 'net.cpp at -O2 (inlines DataStream::read into the field readers)',
+             'rt.c opt-in VERIF_MEMCPY_TYPED: 2/4-byte copies as one typed load/store', 'logging off (ShouldDebugLog false; Log, SanitizeString, HexStr empty)', 'RandAddEvent, memory_cleanse -> no-op', 'pthread_mutex_* -> no-op',
+             'util/btcsignals.h typename normalisation (tool/overlay.py header rule)', 'tinyformat -> empty strings', 'assertion_fail -> CBMC assertion'],
+      assumptions=['receiver driven by the loop of CNode::ReceiveMsgBytes (replicated in the harness)', 'no hash collision is assumed anywhere: "delivered" is characterised exactly by checksum(model)(payload) == checksum on the wire'],
+      bounds='%d quick / %d thorough queries: one message; message type one of 8 concrete strings (lengths 0,2,6,11,12; two with a non-printable character); payload 0..4 symbolic bytes; network magic symbolic for the sender-side wire-format queries and the concrete main-network value for receiver queries; '
+             'two fragments at every cut point of the range named in the query; one altered byte: magic (concrete xor masks 01/80/ff), checksum and payload (symbolic non-zero mask), length (concrete new values incl. 0, +-1, 255, +256, > MAX_PROTOCOL_MESSAGE_LENGTH; 65536..4,000,000 not covered: needs a >= 64 KiB buffer fill), type byte (concrete masks for the first characters, symbolic for padding bytes)' % (len(quick), len(thorough))),
 ]
